@@ -16,6 +16,7 @@ import (
 	"github.com/0chain/common/core/statecache"
 	"github.com/0chain/common/core/util"
 	"github.com/0chain/common/core/util/wmpt"
+	"github.com/fxamacker/cbor/v2"
 	"go.uber.org/zap"
 
 	"verifmc/dev"
@@ -270,6 +271,97 @@ func mutations(b []byte, others [][]byte, thorough bool, emit func([]byte)) {
 	}
 }
 
+// structuralNodes enumerates weighted-trie node encodings that are well-formed CBOR but whose FIELDS have
+// every boundary length: child entries of 0..73 and 100 bytes (a child is hash(32)+weight(8), optionally
+// +value hash(32)+key), 0..32 children, short-node value/hash/key lengths around 40/32/64, several node
+// kinds set at once. (Byte-level mutation cannot reach these: changing a field's length without its CBOR
+// head only produces malformed CBOR.)
+func structuralNodes() [][]byte {
+	var out [][]byte
+	enc := func(nb *wmpt.PersistNodeBase) {
+		if b, err := cbor.Marshal(nb); err == nil {
+			out = append(out, b)
+		}
+	}
+	bytesOf := func(n int, v byte) []byte { return bytes.Repeat([]byte{v}, n) }
+	childLens := []int{0, 1, 8, 31, 32, 39, 40, 41, 47, 48, 63, 64, 71, 72, 73, 80, 100}
+	for _, n := range []int{0, 1, 2, 15, 16, 17, 20, 32} {
+		for _, l := range childLens {
+			// all children of length l
+			cs := make([][]byte, n)
+			for i := range cs {
+				cs[i] = bytesOf(l, byte(i+1))
+			}
+			enc(&wmpt.PersistNodeBase{Branch: &wmpt.PersistNodeBranch{Hash: bytesOf(32, 9), Children: cs}})
+			// one odd child among regular ones
+			if n >= 2 {
+				cs2 := make([][]byte, n)
+				for i := range cs2 {
+					cs2[i] = bytesOf(40, byte(i+1))
+				}
+				cs2[n-1] = bytesOf(l, 7)
+				enc(&wmpt.PersistNodeBase{Branch: &wmpt.PersistNodeBranch{Hash: bytesOf(32, 9), Children: cs2}})
+			}
+		}
+	}
+	enc(&wmpt.PersistNodeBase{Branch: &wmpt.PersistNodeBranch{}})
+	for _, kl := range []int{0, 1, 63, 64, 65, 200} {
+		for _, vl := range []int{0, 1, 32, 39, 40, 41, 80} {
+			for _, hl := range []int{0, 31, 32, 33} {
+				enc(&wmpt.PersistNodeBase{Short: &wmpt.PersistNodeShort{Key: bytesOf(kl, 3), Hash: bytesOf(hl, 5), Value: bytesOf(vl, 1)}})
+			}
+		}
+	}
+	for _, vl := range []int{0, 1, 40, 300} {
+		for _, hl := range []int{0, 31, 32, 33} {
+			for _, w := range []uint64{0, 1, 1 << 63, ^uint64(0)} {
+				enc(&wmpt.PersistNodeBase{Value: &wmpt.PersistNodeValue{Value: bytesOf(vl, 'v'), Hash: bytesOf(hl, 2), Weight: w}})
+			}
+		}
+	}
+	for _, hl := range []int{0, 1, 31, 32, 33} {
+		for _, w := range []uint64{0, 1, ^uint64(0)} {
+			enc(&wmpt.PersistNodeBase{HashNode: &wmpt.PersistHashNode{Hash: bytesOf(hl, 4), Weight: w}})
+		}
+	}
+	enc(&wmpt.PersistNodeBase{NilNode: &wmpt.PersistNilNode{}})
+	enc(&wmpt.PersistNodeBase{})
+	// several kinds at once
+	enc(&wmpt.PersistNodeBase{Branch: &wmpt.PersistNodeBranch{Hash: bytesOf(32, 1), Children: [][]byte{bytesOf(40, 1)}}, Value: &wmpt.PersistNodeValue{Value: []byte("v"), Hash: bytesOf(32, 2), Weight: 1}})
+	enc(&wmpt.PersistNodeBase{Short: &wmpt.PersistNodeShort{Key: []byte{1}, Hash: bytesOf(32, 1), Value: bytesOf(40, 1)}, HashNode: &wmpt.PersistHashNode{Hash: bytesOf(32, 1), Weight: 1}})
+	return out
+}
+
+// structuralTries wraps node encodings into path exports / proofs: every single element, and every pair
+// (container element first, then every node).
+func structuralTries(nodes [][]byte) [][]byte {
+	var out [][]byte
+	wrap := func(es ...[]byte) {
+		pt := wmpt.PersistTrie{}
+		for _, e := range es {
+			pt.Pairs = append(pt.Pairs, &wmpt.PersistTriePair{Value: e})
+		}
+		if b, err := cbor.Marshal(&pt); err == nil {
+			out = append(out, b)
+		}
+	}
+	wrap()
+	var containers [][]byte
+	for _, n := range nodes {
+		wrap(n)
+		var nb wmpt.PersistNodeBase
+		if cbor.Unmarshal(n, &nb) == nil && (nb.Branch != nil || nb.Short != nil) && len(containers) < 60 {
+			containers = append(containers, n)
+		}
+	}
+	for _, c := range containers {
+		for _, n := range nodes {
+			wrap(c, n)
+		}
+	}
+	return out
+}
+
 type c15state struct {
 	mu       sync.Mutex
 	rep      *rt.Report
@@ -288,6 +380,10 @@ func C15(tier rt.Tier) int {
 		maxLen = 3
 	}
 	corp := corpus()
+	structNodes := structuralNodes()
+	structTries := structuralTries(structNodes)
+	rep.Set("structural_node_encodings", len(structNodes))
+	rep.Set("structural_trie_encodings", len(structTries))
 	// current input per worker, for the hang watchdog
 	nw := rt.Workers()
 	current := make([]atomic.Value, nw)
@@ -396,6 +492,19 @@ func C15(tier rt.Tier) int {
 		for _, c := range corp[t.name] {
 			mutations(c, corp[t.name], thorough, func(m []byte) { emit(m); count++ })
 		}
+		// (c) structure-aware enumeration of field lengths for the CBOR formats
+		switch t.name {
+		case "wmpt.DeserializeNode":
+			for _, n := range structNodes {
+				emit(n)
+				count++
+			}
+		case "WeightedMerkleTrie.Deserialize", "WeightedMerkleTrie.VerifyBlockProof":
+			for _, n := range structTries {
+				emit(n)
+				count++
+			}
+		}
 		emit(nil)
 		st.perTgt[t.name] = count
 	}
@@ -414,7 +523,7 @@ func C15(tier rt.Tier) int {
 	rep.Set("accepted_inputs", int(st.accepted))
 	rep.Set("inputs_per_decoder", st.perTgt)
 	rep.Set("corpus_encodings", csize)
-	rep.Set("rule", fmt.Sprintf("for each of the four decoders: ALL byte strings of length <= %d, plus for every real encoding of the corpus (state-trie nodes of every kind, weighted-trie nodes incl. branches with embedded short children, path exports, block proofs; each decoder also sees the other formats): every truncation, every single-byte deletion, every byte value at each of the first 24 (thorough 64) positions and {00,3a,7f,80,ff} (+ every bit flip in thorough) elsewhere, separator duplication, every CBOR head rewritten to every length form incl. 4/8-byte lengths near 2^31/2^63 and indefinite, every splice head(A)+tail(B) at separator/head boundaries; oracle: returns value or error without panic within 120 s, anything accepted is re-encoded/hashed/copied without panic; 'states' = corpus encodings; inputs are counted, not deduplicated", maxLen))
+	rep.Set("rule", fmt.Sprintf("for each of the four decoders: ALL byte strings of length <= %d, plus for every real encoding of the corpus (state-trie nodes of every kind, weighted-trie nodes incl. branches with embedded short children, path exports, block proofs; each decoder also sees the other formats): every truncation, every single-byte deletion, every byte value at each of the first 24 (thorough 64) positions and {00,3a,7f,80,ff} (+ every bit flip in thorough) elsewhere, separator duplication, every CBOR head rewritten to every length form incl. 4/8-byte lengths near 2^31/2^63 and indefinite, every splice head(A)+tail(B) at separator/head boundaries; plus a structure-aware enumeration for the CBOR formats: well-formed nodes whose fields take every boundary length (child entries of 0..100 bytes, 0..32 children, short-node key/value/hash lengths, several kinds at once), alone and as first/second element of exports and proofs; oracle: returns value or error without panic within 120 s, anything accepted is re-encoded/hashed/copied without panic; 'states' = corpus encodings; inputs are counted, not deduplicated", maxLen))
 	rep.Sample(map[string]any{"decoder": "util.CreateNode", "input_hex": "02"})
 	if c := corp["wmpt.DeserializeNode"]; len(c) > 0 {
 		rep.Sample(map[string]any{"decoder": "wmpt.DeserializeNode", "corpus_encoding_hex": hex.EncodeToString(c[0])})
